@@ -318,4 +318,14 @@ theorem noWrap64_of_small_flat {o : Obj} {os : OStream} {r : SaveRes} {hd : Byte
    fun g hg => ⟨save_segments_mem_noWrap_flat hs hok D hsm ha hmem g hg,
      save_segments_file_noWrap_flat hs hok D g hg⟩⟩
 
+/-- the hypotheses of `noWrap64_of_small_flat` are satisfiable: the ELF64 object with two PT_LOADs, an
+    explicit address, a NOBITS member and a loose section (`Compose.exTwoM`, in `FlatDomain` by
+    `Compose.exTwo_ok`) is small and has small addresses -/
+example : Compose.FlatDomain (Compose.objOf Compose.exTwoM) ((Compose.objOf Compose.exTwoM).hdr.getD []) ∧
+    SmallObject (Compose.objOf Compose.exTwoM) ∧ SmallAddrs2 (Compose.objOf Compose.exTwoM) ∧
+    (∀ g ∈ (Compose.objOf Compose.exTwoM).segs, g.memsz.toNat < 4611686018427387904) := by
+  refine ⟨Compose.exTwo_ok.dom, by decide +kernel, ?_, by decide +kernel⟩
+  unfold SmallAddrs2
+  decide +kernel
+
 end ElfioVerif.C04
